@@ -425,6 +425,19 @@ func (p *Proc) After() (syscall.Termios, error) {
 	return Termios(p.slave)
 }
 
+// SetNonblock sets or clears O_NONBLOCK on the open file description of the
+// terminal.  The child's stdin, stdout and stderr are duplicates of the
+// harness's slave descriptor, so they share that one description: this is what
+// a sibling process sharing the terminal (ssh, a multiplexer, a wrapper) does
+// to a program behind its back.  A program that was started on a blocking
+// terminal then sees EAGAIN and partial writes when the terminal is busy.
+func (p *Proc) SetNonblock(on bool) error {
+	if p.slave == nil {
+		return fmt.Errorf("no terminal")
+	}
+	return syscall.SetNonblock(int(p.slave.Fd()), on)
+}
+
 // Kill kills the child's session and releases the pty.
 func (p *Proc) Kill() {
 	if p.cmd.Process != nil {
